@@ -1405,6 +1405,10 @@ def check_C06(A, R, tier):
     # R6.8 the startup classification decides the 'needed' flag of every incoming dependency of every job it visits, on every path:
     # jobs visited later (their upstreams: reverse topological order) read those flags and treat an undecided one as an internal error
     rule_startup_declares_edges(A, R, "R6.8")
+    # R6.10 the requirement summary accepts every flag value that is written for a downstream of that kind (it treats the
+    # combinations it believes impossible as internal errors)
+    from rules_c04 import rule_summary_accepts_written_flags
+    rule_summary_accepts_written_flags(A, R, "R6.10")
     # F7 is owned by C07 (R7.5); reference only
     R.explanation = ("Necessary conditions, each over all paths: state writes keep the kind (the kind-change panic is dead); explicit panics "
                      "outside the public API's argument checks are unreachable in the abstraction; every unwrap outside those checks is "
